@@ -10,7 +10,7 @@ import time
 VERIF = os.path.dirname(os.path.dirname(os.path.abspath(__file__)))
 REPO = os.environ.get('PYTRS_REPO', '/repo')
 BUILD = os.path.join(VERIF, '_build')
-DRIVER = os.path.join(BUILD, 'extract', 'driver')
+DRIVER = os.path.join(BUILD, 'extract', os.environ.get('VERIF_DRIVER_GROUP', 'aliquot'), 'driver')
 PY = '/venv/bin/python'
 NPROC = int(os.environ.get('VERIF_NPROC', '12'))
 
